@@ -191,22 +191,25 @@ func (f *File) register(path string) string {
 		alias = true
 	}
 
-	// If the name is invalid or has been registered already, make it unique by appending a number
+	// Only add a prefix if the name is an alias, and never to a dot-import. The prefix is part of
+	// the name that is checked below, so that the name that is registered is the name that was
+	// found to be unique.
+	prefix := ""
+	if f.PackagePrefix != "" {
+		prefix = f.PackagePrefix + "_"
+	}
 	unique := name
+	if alias && name != "." {
+		unique = prefix + name
+	}
+
+	// If the name is invalid or has been registered already, make it unique by appending a number.
+	// If we've changed the name to make it unique, it should definitely be an alias.
 	i := 0
 	for !f.isValidAlias(unique) {
 		i++
-		unique = fmt.Sprintf("%s%d", name, i)
-	}
-
-	// If we've changed the name to make it unique, it should definitely be an alias
-	if unique != name {
 		alias = true
-	}
-
-	// Only add a prefix if the name is an alias
-	if f.PackagePrefix != "" && alias {
-		unique = f.PackagePrefix + "_" + unique
+		unique = fmt.Sprintf("%s%s%d", prefix, name, i)
 	}
 
 	// Register the eventual name
